@@ -1,9 +1,106 @@
 /-
-  Y0.Props.C02 — ID verdicts are total, complete w.r.t. hedges, side-effect free (theorems about Y0.Model.Id).
+  Property C02 — ID verdicts are total, complete w.r.t. hedges, side-effect free.
+  Theorems about the executable model `Y0.idAlg` / `Y0.identify` / `Y0.identifyOutcomes` (Y0/Model/Id.lean).
+
+  * termination: `idAlg` is defined by well-founded recursion on `(|V|, |V ∖ X|)`; `step_decreases` shows every
+    recursive call made on a valid input is on a valid input with a strictly smaller measure, and
+    `idAlg_measure_ok` that the run-time guard of the definition therefore never fires;
+  * totality: `id_total` — on a valid query (well-formed acyclic graph, non-empty `Y ⊆ V`, `X ∩ Y = ∅`) the only
+    outcomes are an estimand or `unidentifiable`: no `internal` / `invalidInput` outcome (this uses the
+    node-preservation facts of C14, i.e. the F1 fix);
+  * the public wrapper maps `unidentifiable` to `none` and nothing else.
+
+  Assumption about networkx (`TopoGood topo`): on a well-formed acyclic graph `topological_sort` returns a list of
+  exactly the nodes.
+
+  -- OPEN: id_fail_hedge : identify topo G X Y = .error .unidentifiable → ∃ F F', Hedge G X Y F F'
+  --   (Shpitser–Pearl 2006, Thm 5; the hedge has to be transported from the failing sub-problem back through
+  --    lines 2, 3, 4, 7 to the original query).  Proved instead: `step_refusal_line5` (the refusal is raised by line 5
+  --    on a sub-problem whose graph is a single district with `X ≠ ∅` and whose `G ∖ X` is a single district).
+  --   The converse (hedge ⇒ refusal) follows from `id_sound` and the non-identifiability of hedges (literature,
+  --    not mechanised).  Both directions are decided per input by the two independent procedures of the harness.
+  -- R: "leaves the caller's graph and query objects unchanged" is a Python-runtime clause (the model is pure).
 -/
-import Y0.Model.Id
+import Y0.Lemmas.IdTotal
 
 namespace Y0
+open IdDsl IdAux
+
+/-- the two admissible outcomes of ID -/
+def IdOutcomeOk (r : Except Err Expr) : Prop := (∃ e, r = .ok e) ∨ r = .error .unidentifiable
+
+/-- **termination argument.** On a valid input every recursive call of one pass of `identify` is made on a valid
+input whose measure `(|V|, |V ∖ X|)` is strictly smaller (lexicographically). -/
+theorem step_decreases {topo : MG Name → Except Err (List Name)} {I : IdIn} (hv : Valid I)
+    {s : Step} (h : step topo I = .ok s) :
+    match s with
+    | .done _ => True
+    | .tail J => Valid J ∧ measureLt J.measure I.measure = true
+    | .split Js _ => ∀ J ∈ Js, Valid J ∧ measureLt J.measure I.measure = true := by
+  have := step_good hv h
+  cases s <;> exact this
+
+/-- **totality of the recursion.** On a valid input `idAlg` returns an estimand or refuses; it never fails
+internally (in particular the measure guard of the well-founded definition never fires). -/
+theorem idAlg_total {topo : MG Name → Except Err (List Name)} (ht : TopoGood topo) :
+    ∀ I, Valid I → IdOutcomeOk (idAlg topo I) := by
+  intro I
+  induction I using measure_wf.induction with
+  | _ I ih =>
+    intro hv
+    rw [idAlg_eq]
+    cases hs : step topo I with
+    | error e =>
+      rw [step_error hv ht hs]
+      exact Or.inr rfl
+    | ok s =>
+      have hg := step_good hv hs
+      cases s with
+      | done e => exact Or.inl ⟨e, rfl⟩
+      | tail J =>
+        simp only [hg.2, if_true]
+        exact ih J hg.2 hg.1
+      | split Js ranges =>
+        have hall : Js.all (fun J => measureLt J.measure I.measure) = true :=
+          List.all_eq_true.mpr (fun J hJ => (hg J hJ).2)
+        simp only [hall, if_true]
+        cases hm : Js.mapM (idAlg topo) with
+        | ok es => exact Or.inl ⟨_, rfl⟩
+        | error e =>
+          obtain ⟨J, hJ, hJe⟩ := mapM_error _ _ _ hm
+          rcases ih J (hg J hJ).2 (hg J hJ).1 with ⟨e', he'⟩ | he'
+          · rw [he'] at hJe; cases hJe
+          · rw [he'] at hJe
+            cases hJe
+            exact Or.inr rfl
+
+/-- the run-time guard of the well-founded definition never fires on a valid input -/
+theorem idAlg_measure_ok {topo : MG Name → Except Err (List Name)} (ht : TopoGood topo) (I : IdIn) (hv : Valid I) :
+    idAlg topo I ≠ .error (.internal "measure") := by
+  rcases idAlg_total ht I hv with ⟨e, he⟩ | he <;> rw [he] <;> simp
+
+/-- **C02, totality.** For every valid query ID terminates with exactly one of two outcomes: an estimand or the
+`unidentifiable` refusal. -/
+theorem id_total {topo : MG Name → Except Err (List Name)} (ht : TopoGood topo) (G : MG Name) (X Y : List Name)
+    (hq : ValidQuery G X Y) : IdOutcomeOk (identify topo G X Y) := by
+  unfold identify
+  have hne : G.nodes ≠ [] := by
+    obtain ⟨y, hy⟩ := List.exists_mem_of_ne_nil _ hq.yne
+    exact List.ne_nil_of_mem (hq.ysub y hy)
+  have hj : ∃ c, pJoint G.nodes = .ok (.prob none c []) := by
+    unfold pJoint
+    cases hs : sortNames G.nodes with
+    | nil => exact absurd hs (sortNames_ne_nil hne)
+    | cons a l => exact ⟨_, rfl⟩
+  obtain ⟨c, hc⟩ := hj
+  rw [hc]
+  exact idAlg_total ht _ ⟨hq.wf, hq.ranked, hq.ysub, hq.yne, hq.disj, trivial⟩
+
+/-- the public wrapper: an estimand or `None`, never an exception, on a valid query -/
+theorem identifyOutcomes_total {topo : MG Name → Except Err (List Name)} (ht : TopoGood topo) (G : MG Name)
+    (X Y : List Name) (hq : ValidQuery G X Y) : ∃ r, identifyOutcomes topo G X Y = .ok r := by
+  unfold identifyOutcomes
+  rcases id_total ht G X Y hq with ⟨e, he⟩ | he <;> rw [he] <;> exact ⟨_, rfl⟩
 
 /-- the public wrapper turns the refusal into `none`: it never raises `Unidentifiable` itself -/
 theorem identifyOutcomes_not_unidentifiable (topo : MG Name → Except Err (List Name)) (G : MG Name) (X Y : List Name) :
@@ -13,5 +110,19 @@ theorem identifyOutcomes_not_unidentifiable (topo : MG Name → Except Err (List
   | ok e => simp
   | error e =>
     cases e <;> simp
+
+/-- a refusal can only come from line 5: one pass on a valid input fails only with `unidentifiable`, and only when
+the current graph is a single district, so is `G ∖ X`, and `X ≠ ∅` (the two C-components of a hedge of the
+current sub-problem) -/
+theorem step_refusal_line5 {topo : MG Name → Except Err (List Name)} (ht : TopoGood topo) {I : IdIn} (hv : Valid I)
+    {e : Err} (h : step topo I = .error e) :
+    e = .unidentifiable ∧ I.X ≠ [] ∧ I.G.districts.length = 1 ∧ (I.G.removeNodes I.X).districts.length = 1 :=
+  step_error' hv ht h
+
+/-! ### non-vacuity -/
+
+/-- the napkin query is a valid query (rank = the node number) -/
+example : ValidQuery (MG.fromEdges [0, 1, 2, 3] [(0, 1), (1, 2), (2, 3)] [(0, 2), (0, 3)]) [2] [3] :=
+  ⟨MG.wf_fromEdges _ _ _, ⟨fun v => v, by decide⟩, by decide, by decide, by decide⟩
 
 end Y0
